@@ -219,20 +219,105 @@ def parseWEv (s : String) : Option (Nat × Ev) :=
   | [w, e] => do pure ((← w.toNat?), (← parseEv e))
   | _ => none
 
-/-- run the events; the index of the first refused one. Register files and memory are re-tabulated
-    after every event (as `trunIdx` does). -/
+/-- driver only: re-tabulate a register file that differs from the (already tabulated) file `old` at
+    most on the cells `wr` — the new closure is evaluated on those cells only. For the instructions of the
+    sample set (`compile_wf`: `f_frame`, `ld_frame`, `wrD_sub`) this is extensionally `new`; evaluating
+    `new` on every cell would re-run e.g. the memory read of an `s_load` for each of the 1867 cells. -/
+@[noinline] def freezeOn (wr : List Nat) (old new : RF) : Box :=
+  let lo := wr.foldl min (wr.headD 0)
+  let hi := wr.foldl max 0
+  freezeR fun x => if lo ≤ x && x ≤ hi && wr.contains x then new x else old x
+
+/-- driver only: the same for a memory that differs from the tabulated `old` at most inside the byte
+    ranges `rs` (the footprint of the store just performed: `st_frame`) -/
+@[noinline] def freezeMOn (rs : Ranges) (old new : Mem) : Box :=
+  freezeM fun a => if inRanges rs a then new a else old a
+
+/-- the byte ranges the store performed by `serveV k` writes (`none`: not a store) -/
+def storeTouched (s : TState) : Ev → Option Ranges
+  | .serveV k => match s.vq[k]? with
+    | some p => if p.inst.isStore then some (p.inst.fpl p.r0) else none
+    | none => none
+  | _ => none
+
+/-- the registers an event of wavefront state `s` may write -/
+def touched (s : TState) : Ev → Option (List Nat)
+  | .exec => s.cur.map (·.wr)
+  | .retV => s.vq.head?.map (·.inst.wr)
+  | .retS k => s.sq[k]?.map (·.inst.wr)
+  | _ => none
+
+/-- run the events; the index of the first refused one. After an event the registers it may have written
+    and — after a performed store — the shared memory are re-tabulated (as `trunIdx` does after every
+    event). Bind the BOX, not the function: a let-bound function value is eta-expanded by the compiler
+    and would re-tabulate on every read. -/
 def wgrunIdx (g : WG) (W : WState) (evs : List (Nat × Ev)) : WState × Option Nat :=
   let rec go : WState → List (Nat × Ev) → Nat → WState × Option Nat
     | W, [], _ => (W, none)
     | W, e :: es, k => match wgstep g (fun _ _ => true) W e with
       | none => (W, some k)
       | some W' =>
-        let m := (freezeM ((W'.c.headD (tinit 0 (fun _ => 0) (fun _ => 0))).mem)).f
-        go { W' with c := W'.c.map fun s => { s with regs := (freezeR s.regs).f, mem := m } } es (k + 1)
+        let c1 := match W.c[e.1]? with
+          | none => W'.c
+          | some s0 => match touched s0 e.2 with
+            | none => W'.c
+            | some wr => W'.c.modify e.1 (fun s => { s with regs := (freezeOn wr s0.regs s.regs).f })
+        let c2 := match W.c[e.1]? with
+          | none => c1
+          | some s0 => match storeTouched s0 e.2 with
+            | none => c1
+            | some rs =>
+              let bm := freezeMOn rs s0.mem ((c1.headD (tinit 0 (fun _ => 0) (fun _ => 0))).mem)
+              c1.map fun s => { s with mem := bm.f }
+        go { W' with c := c2 } es (k + 1)
   go W evs 0
 
+/-! driver only: the emulator loops with the register file and the memory re-tabulated after every
+    instruction (extensionally the identity, `freezeE_eq`; without it the closures `estep` builds pile up
+    and every register read re-evaluates all earlier instructions) -/
+
+def erunSegD (P : Prog) : Nat → EState → Option EState
+  | 0, s => if s.done then some s else none
+  | n + 1, s => if s.done then some s else
+    match estep P s with
+    | none => none
+    | some s' =>
+      -- the registers on the cells the instruction may write, the memory only after a store (every
+      -- re-tabulation adds a layer that reads outside the tabulated windows have to walk through)
+      match P.instAt s.pc with
+      | none => erunSegD P n s'
+      | some i =>
+        let s1 := { s' with regs := (freezeOn i.wr s.regs s'.regs).f }
+        erunSegD P n (if i.isStore then { s1 with mem := (freezeMOn (i.fpl s.regs) s.mem s1.mem).f } else s1)
+
+def eroundD (g : WG) (fuel : Nat) : List Prog → List EWf → Mem → Option (List EWf × Mem)
+  | P :: Ps, w :: ws, m =>
+    if w.E.done then
+      match eroundD g fuel Ps ws m with
+      | none => none
+      | some r => some (w :: r.1, r.2)
+    else
+      match erunSegD P fuel { w.E with mem := m } with
+      | none => none
+      | some E' =>
+        match eroundD g fuel Ps ws E'.mem with
+        | none => none
+        | some r => some ({ E := E', atBar := g.bars (E'.trace.getLastD 0) } :: r.1, r.2)
+  | _, _, m => some ([], m)
+
+def ewgRunD (g : WG) (fuel : Nat) : Nat → List EWf → Mem → Option (List EWf × Mem)
+  | 0, ws, m => if ecompleted ws then some (ws, m) else none
+  | r + 1, ws, m =>
+    if ecompleted ws then some (ws, m) else
+    match eroundD g fuel g.Ps ws m with
+    | none => none
+    | some x => ewgRunD g fuel r (eresolve x.1) x.2
+
 def wfStr (base : Nat) (T : TState) (p : Bool) : String :=
-  s!"ph={if p then "bar" else phaseStr T.ph} pc={T.pc - base} vm={T.vm} lgkm={T.lgkm} tr={traceStr base T.trace} {regsStr T.regs}"
+  -- the PC of a completed wavefront is dead state (the real `evalSEndPgm` advances it once more when the
+  -- ending wavefront releases the waiters: `passBarrier` runs before `WfCompleted` is set): not printed
+  let pcs := if T.ph = .done ∧ p = false then "-" else toString (T.pc - base)
+  s!"ph={if p then "bar" else phaseStr T.ph} pc={pcs} vm={T.vm} lgkm={T.lgkm} tr={traceStr base T.trace} {regsStr T.regs}"
 
 def ewfStr (base : Nat) (w : EWf) : String :=
   s!"pc={w.E.pc - base} tr={traceStr base w.E.trace} {regsStr w.E.regs}"
@@ -250,7 +335,7 @@ def handleBar (t : List String) : String :=
       let tst := match rej with | none => "ok" | some k => s!"rej@{k}"
       let tw := joinWith " ; " ((W.c.zip W.parked).map fun x => wfStr base x.1 x.2)
       let tm := memDiff seed ((W.c.headD (tinit 0 (fun _ => 0) m0)).mem)
-      let er := ewgRun g 400 64 (einitW inits m0) m0
+      let er := ewgRunD g 400 64 (einitW inits m0) m0
       let es := match er with
         | none => "E stuck"
         | some (ws, m) => "E done " ++ joinWith " ; " (ws.map (ewfStr base)) ++ s!" mem={memDiff seed m}"
